@@ -79,7 +79,8 @@ class NoiseModelFromNoiseProperties(devices.NoiseModel):
         # Split multi-qubit measurements into single-qubit measurements.
         # These will be recombined after noise is applied.
         split_measure_moments = []
-        multi_measurements = {}
+        # Original measurement per (key, qubit), in circuit order: a key can be measured repeatedly.
+        multi_measurements: dict[tuple[cirq.MeasurementKey, cirq.Qid], list[cirq.Operation]] = {}
         for moment in moments:
             split_measure_ops = []
             for op in moment:
@@ -87,8 +88,8 @@ class NoiseModelFromNoiseProperties(devices.NoiseModel):
                     split_measure_ops.append(op)
                     continue
                 m_key = protocols.measurement_key_obj(op)
-                multi_measurements[m_key] = op
                 for q in op.qubits:
+                    multi_measurements.setdefault((m_key, q), []).append(op)
                     split_measure_ops.append(ops.measure(q, key=m_key))
             split_measure_moments.append(circuits.Moment(split_measure_ops))
 
@@ -121,14 +122,15 @@ class NoiseModelFromNoiseProperties(devices.NoiseModel):
         final_moments = []
         for moment in noisy_circuit:
             combined_measure_ops = []
-            restore_keys = set()
+            restored: dict[int, cirq.Operation] = {}
             for op in moment:
                 if not protocols.is_measurement(op):
                     combined_measure_ops.append(op)
                     continue
-                restore_keys.add(protocols.measurement_key_obj(op))
-            for key in restore_keys:
-                combined_measure_ops.append(multi_measurements[key])
+                (q,) = op.qubits
+                original = multi_measurements[(protocols.measurement_key_obj(op), q)].pop(0)
+                restored[id(original)] = original
+            combined_measure_ops.extend(restored.values())
             final_moments.append(circuits.Moment(combined_measure_ops))
         return final_moments
 
